@@ -100,7 +100,8 @@ NOT_COVERED = [
 ]
 OPEN = []
 RULE = ("correspondence: random listener lists (1-6 listeners out of 14 kinds) x random sample sequences (1 us to 100 s spacing, regular / irregular / backward, roots of the "
-        "polynomials on and off the samples) x 6 iteration modes (dates, range, Ephem dates/step/stored points) x listener history (fresh / reused / abandoned generator); "
+        "polynomials on and off the samples) x 6 iteration modes (dates, range, Ephem dates/step/stored points) x listener history (fresh / reused / abandoned generator) "
+        "x (one listener: handed over in a list / as a bare Listener object); "
         "node / apside / anomaly listeners with a frame of their own or created with frame=None (reading the stub state's own, settable, frame); "
         "TopocentricFrame.visibility with 0-7 additional listeners (with / without frame) given through listeners= and/or events= (True / list / single / none), with and without mask, "
         "plus the three kernel-checked regression witnesses of Witness/C10.lean replayed on the real method; "
@@ -1381,6 +1382,8 @@ def gen_case(rng):
     if mode == "ephem-nostep" and ts[1] < ts[0]:
         mode = "ephem-dates"
     history = rng.choice(["fresh", "fresh", "reuse", "abandoned"])
+    if len(specs) == 1 and rng.random() < 0.5:
+        history += "+single"      # the one listener is handed over as an object, not in a list (`isinstance(listeners, Listener)`)
     return ts, skind, specs, mode, history, own
 
 
@@ -1410,16 +1413,20 @@ def real_stream(env, ts, specs, mode, history, own):
     else:
         src = env.StubProp(chans)
 
+    single = history.endswith("+single")
+    history = history.split("+")[0]
+    arg = Ls[0] if single else Ls
+
     def run(ts_, dates_):
         if mode in ("dates", "ephem-dates"):
-            return src.iter(dates=list(dates_), listeners=Ls)
+            return src.iter(dates=list(dates_), listeners=arg)
         step = timedelta(microseconds=ts_[1] - ts_[0])
         if mode == "range":
-            return src.iter(start=dates_[0], stop=dates_[-1], step=step, listeners=Ls)
+            return src.iter(start=dates_[0], stop=dates_[-1], step=step, listeners=arg)
         if mode == "ephem-step":
-            return src.iter(start=dates_[0], stop=dates_[-1], step=step, listeners=Ls)
+            return src.iter(start=dates_[0], stop=dates_[-1], step=step, listeners=arg)
         if mode == "ephem-nostep":
-            return src.iter(start=dates_[0], stop=dates_[-1], listeners=Ls)
+            return src.iter(start=dates_[0], stop=dates_[-1], listeners=arg)
         raise ValueError(mode)
     if history == "reuse":
         list(run(ts, dates))
@@ -1529,6 +1536,7 @@ def gen_vis_case(rng):
     """TopocentricFrame.visibility through the stubs: station components, the caller's listeners (via listeners= and/or
     events=), events flag, mask or not"""
     ts, skind, specs, _, history, own = gen_case(rng)
+    history = history.split("+")[0]
     lo, hi = min(ts), max(ts)
     sta = (gen_poly(rng, lo, hi, ts), gen_poly(rng, lo, hi, ts, 2), gen_poly(rng, lo, hi, ts, 2), gen_poly(rng, lo, hi, ts, 1), 0)
     r = rng.random()
@@ -1704,7 +1712,7 @@ def correspondence(ctx):
             out.fail("events-query", "events_iterator / find_event over the real stream differs from the model", {"query": list(q), "samples": ts, "specs": specs, "own": own, "line": line},
                      observed=real, expected=m)
     # ---- LightListener.__call__ as a function of the geometry (formulas translated from the source: Generated/LightSrc)
-    lstates = gen_light_states(rng, ctx.n(150, 6000))
+    lstates = gen_light_states(rng, ctx.n(150, 3000))
     linp = [light_inputs(o) for o, _, _ in lstates]
     llines = [f"c10l {1 if typ == 'penumbra' else 0} " + " ".join(core.f2b(x) for x in inp) for (o, typ, how), inp in zip(lstates, linp)]
     for (o, typ, how), inp, line, m in zip(lstates, linp, llines, core.Driver("C10").run(llines)):
